@@ -1,7 +1,7 @@
 (* C05 — HDF5-era lazy and concatenated indexers equal composed outer indexing.  Only statements here. *)
 From Coq Require Import ZArith List Bool.
 From KV Require Import Base.Sx Base.PySlice Base.AxisIndex Base.NdArray Base.LazyDType Gen.Generated
-  Model.LazyIdx Model.LazyNd Model.ConcatIdx Proofs.LazyIdxP Proofs.LazyNdP Proofs.ConcatIdxP.
+  Model.LazyIdx Model.LazyNd Model.ConcatIdx Model.LazyKeep Proofs.LazyIdxP Proofs.LazyNdP Proofs.ConcatIdxP Proofs.LazyKeepP.
 Import ListNotations.
 Open Scope Z_scope.
 
@@ -286,6 +286,66 @@ Theorem C05_concat_examples :
      = spec_concat two_parts [] [AMask [true; false; false; true; true]; AInt 0].
 Proof. exact concat_example_supported. Qed.
 Print Assumptions C05_concat_examples.
+
+(* ---- transforms that use their `keep` argument (katdal's keepdims and weights transforms) ---- *)
+
+(* C05_getitem_keep (full strength): LazyIndexer with its chunk loop and ANY chain of transforms, including transforms
+   that depend on `keep` (KKeepdims: scalar-indexed axes come back with length 1; KAux: another array of the first-stage
+   shape indexed with the same keep): the answer is that chain applied - with the second-stage index exactly as the
+   user wrote it and the shape of source[stage 1] - to source[stage 1][stage 2]. *)
+Theorem C05_getitem_keep : forall garbage shape ds k1 ts dt k2 k out a1,
+  Forall (fun d => 0 <= d) shape -> (forall sh, shaped sh (garbage sh)) ->
+  mk_k shape k1 ts dt = Ok k ->
+  oindex_keep (mk_nd shape ds) k1 = Ok a1 ->
+  getitem_k garbage k ds k2 = Ok out ->
+  spec_getitem_k shape ds k1 ts dt k2 = Ok out.
+Proof. exact getitem_k_correct. Qed.
+Print Assumptions C05_getitem_keep.
+
+(* C05_shape_dtype_keep (full strength): .shape, .dtype and len() are the shape, dtype and length of self[:] through
+   every chain (several dtype-declaring transforms: the LAST declared dtype; keep-aware transforms declare nothing);
+   the shape has at least one axis. *)
+Theorem C05_shape_dtype_keep : forall garbage shape ds k1 ts dt k a1 out s,
+  Forall (fun d => 0 <= d) shape -> (forall sh, shaped sh (garbage sh)) ->
+  mk_k shape k1 ts dt = Ok k -> oindex_keep (mk_nd shape ds) k1 = Ok a1 ->
+  klazy_shape k = Ok s -> getitem_k garbage k ds [] = Ok out ->
+  nd_shape (a_nd out) = s /\ a_dtype out = klazy_dtype k /\ klazy_len k = Ok (hd 0 (nd_shape (a_nd out))) /\ s <> [].
+Proof. exact getitem_k_full_shape_dtype. Qed.
+Print Assumptions C05_shape_dtype_keep.
+
+(* every answer has the dtype property, whatever the index *)
+Theorem C05_dtype_keep : forall ctx ts x y, k_apply_all ctx ts x = Ok y -> a_dtype y = chain_dtype (a_dtype x) ts.
+Proof. exact k_apply_all_dtype. Qed.
+Print Assumptions C05_dtype_keep.
+
+(* C05_concat_keep (full strength): the concatenated indexer with a keep-aware chain; the chain is told the shape of
+   np.concatenate of the parts (C05_concat_full_shape) *)
+Theorem C05_concat_keep : forall raws ts ix k out fulls,
+  Forall raw_ok raws ->
+  mapM (fun r => oindex_keep (mk_nd (r_shape r) (r_ds r)) (r_keep r)) raws = Ok fulls ->
+  kc_mk raws ts = Ok k -> kc_getitem k ix = Ok out ->
+  spec_concat_k raws ts ix = Ok out.
+Proof. exact kconcat_correct. Qed.
+Print Assumptions C05_concat_keep.
+
+Theorem C05_concat_full_shape : forall raws ts c fulls init,
+  Forall raw_ok raws ->
+  mapM (fun r => oindex_keep (mk_nd (r_shape r) (r_ds r)) (r_keep r)) raws = Ok fulls ->
+  c_mk raws ts = Ok c -> c_initial_shape (c_parts c) = Ok init ->
+  exists x0, spec_concat raws [] [] = Ok x0 /\ nd_shape (a_nd x0) = init.
+Proof. exact concat_full_spec. Qed.
+Print Assumptions C05_concat_full_shape.
+
+Theorem C05_keep_example :
+  run_k [4; 3; 2] [] [KKeepdims] [ASlice (Some 1) None None; AInt (-1)]
+  = spec_getitem_k [4; 3; 2] (arange [4; 3; 2] 0) [] [KKeepdims] 0 [ASlice (Some 1) None None; AInt (-1)]
+  /\ (exists x, run_k [4; 3; 2] [] [KKeepdims] [ASlice (Some 1) None None; AInt (-1)] = Ok x /\ nd_shape (a_nd x) = [3; 1; 2])
+  /\ run_k [6; 2] [ASlice (Some 1) None (Some 2)] [KAux 1000; KPlain (TMap 2 0 None)] [AList [0; 2]; AInt 1]
+     = spec_getitem_k [6; 2] (arange [6; 2] 0) [ASlice (Some 1) None (Some 2)] [KAux 1000; KPlain (TMap 2 0 None)] 0 [AList [0; 2]; AInt 1]
+  /\ (exists x, run_k [6; 2] [ASlice (Some 1) None (Some 2)] [KAux 1000; KPlain (TMap 2 0 None)] [AList [0; 2]; AInt 1] = Ok x
+                /\ flatten (nd_body (a_nd x)) = [2 * (3 + 1000 * 1); 2 * (11 + 1000 * 5)]).
+Proof. exact keep_example. Qed.
+Print Assumptions C05_keep_example.
 
 (* ---- open findings: the faithful model reproduces them (full-strength "always answers" refuted) ---- *)
 
